@@ -28,7 +28,9 @@ RULE = ('programs of facts fact_i(L, V1..Vn), rules body_i(R, V1..Vn) :- R = L a
         '(a subterm / a run of arguments with its commas / the inside of a list pattern as ONE atom; number, variable, _ as atoms); atoms of '
         'characters that text layers treat specially (all str.splitlines breaks, CR LF, lone CR, Unicode spaces, controls, byte order marks); '
         'clause layout LF / CR LF / CR; the fact/body/atom clauses compiled through every entry point (string, file of the UTF-8 bytes, the '
-        'command line from a file and from standard input) must denote the same terms. '
+        'command line from a file and from standard input) must denote the same terms. Files given as BYTES (UTF-8 of a random atom, damaged '
+        'or extended by overlong forms, surrogates, truncated / stray bytes, boundary code points, byte order marks, CR forms) read through '
+        'the file / command-line / standard-input entry points against the model\'s strict UTF-8 decoder and front end. '
         'Non-trivial: the literal contains a quoted atom with a quote, line break or non-ASCII character, or a list pattern. '
         'Distinct by hash of the program text.')
 TRUSTED_BASE = [
@@ -38,6 +40,7 @@ TRUSTED_BASE = [
     'the run-time half of C16 (to_python, atom table, unification of API-built terms with compiled literals) is CHECKED on the implementation, not proved: '
     'expected values are computed from the model AST by harness/props/c16.py (py_of)',
     'harness: generators, driver of the implementation, parser of the printed observations',
+    'hand-written model Lang/Utf8.v of UTF-8 encoding / strict decoding (what FileStream / StdinStream do with the bytes); tied by the byte-file cases and the per-program fingerprint',
 ]
 ASSUMPTIONS = ['quoted atoms contain no backslash (the grammar cannot express one); to_python is specified for proper lists only',
                'the tail of a [..|T] pattern is a variable (grammar)']
